@@ -250,6 +250,8 @@ def hostile_pairs():
     pair(["sel"], "sel", ["all"], "not all")
     pair(["sel"], "sel", ["them", "x"], "not them")
     pair(["sel"], "sel", ["1", "x"], "not 1")
+    pair(["sel", "Them"], "sel", ["Them", "x"], "not Them")          # 'them' is matched case-sensitively
+    pair(["sel"], "sel", ["ANDY", "nota"], "not ANDY or nota")
     pair(["sel"], "sel", ["_u", "v"], "not 1 of them")              # underscore rule inside the filter
     pair(["sel"], "sel", ["_u", "v"], "all of *")
     pair(["a", "b"], "a) or (b", ["flt"], "not flt")                # unbalanced rule condition
@@ -274,7 +276,7 @@ FORCED = ["aaaaaaaaaa", "aaaaaaaaaa", "aaaaaaaaaa", "bbbbbbbbbb", "bbbbbbbbbb", 
 
 def gen_apply(tier, rng):
     pairs = small_pairs() + ls_pairs() + hostile_pairs()
-    n = 100 if tier == "quick" else 1500
+    n = 100 if tier == "quick" else 800
     for i in range(n):
         pairs.append(gen_pair(rng, hostile=(i % 2 == 1)))
     out = []
@@ -291,10 +293,14 @@ def gen_apply(tier, rng):
                 nseeds = 1
             elif i >= nfixed + len(hostile_pairs()):
                 nseeds = 20 if i % 4 == 0 else 2
+        elif nsmall <= i < nfixed:
+            nseeds = 3            # the log-source / reference sweep does not depend on the draw
         runs = [{"seed": rng.randrange(10 ** 6) if s else 0} for s in range(nseeds)]
         runs.append({"seed": 0, "forced": FORCED})
         if i % 7 == 0:
             runs.append({"seed": 1, "collect": True})
+        if i % 5 == 0:
+            runs.append({"seed": 2, "explicit": True})      # collect_filters=True, then apply_filters(filters)
         out.append({"docs": docs, "nobj": nobj, "runs": runs})
     return out
 
@@ -503,10 +509,12 @@ def stratum(c, r):
 
 
 REQ = ["Base.Chars", "Base.Outcome", "Model.FCondParse", "Model.FCond", "Model.Filter", "Spec.FilterSpec", "Run.C11run"]
+SUITE = Suite("apply", gen_apply, "run", REQ, "judge_apply", apply_to_coq, known=known_apply, mutate=mutate_apply,
+              stratum=stratum, shard=150)
+SUITE.model_expr = "model_runs"      # printed by --replay
 PROPERTY = Property(
     pid="C11", props_file="Props/C11.v",
-    suites=[Suite("apply", gen_apply, "run", REQ, "judge_apply", apply_to_coq, known=known_apply, mutate=mutate_apply,
-                  stratum=stratum, shard=150)],
+    suites=[SUITE],
     rule="(rule set, filter set) pairs: exhaustive 8x9 rule/filter conditions over overlapping names {sel, flt} on both sides; "
          "all 17x17 log-source pairs over category/product/service in {absent,a,b}; 17 ways of writing filter.rules x 5 id/name settings; "
          "one fixed pair per defect class; random pairs (1-3 rules, 0-3 stacked filters, conditions with identifiers/not/and/or/selectors "
